@@ -7,6 +7,9 @@ Set / map element order is not part of a CQL value, so collection encodings are 
 independent structural canonicalisation.  DateTime is judged against the exact integer
 millisecond instant computed with timedelta integer arithmetic (naive = UTC; aware datetimes
 with fixed offsets, pytz zones and stdlib zoneinfo zones, including both sides of DST changes).
+Datetimes that carry a sub-millisecond part (microsecond not a multiple of 1000) have no "exact
+millisecond instant"; they are judged by the first half of the statement: the stored integer must
+be the one the core encoder (DateType.serialize) stores for the same datetime, on both sides of 1970.
 """
 import datetime
 import decimal
@@ -24,9 +27,12 @@ META = {
             'and nested element types, a UDT) and every boundary value of the natural python type(s) of its CQL type, the bytes the '
             'core driver produces for col.to_database(v) under the column CQL type are compared with the bytes it produces for v '
             'itself (sets/maps compared as unordered after splitting the collection layout independently); scalar encodings are '
-            'additionally cross-checked against an independent encoder.  DateTime: every millisecond 0..999 at 12 epochs between '
-            'year 1 and 9999 (naive), and the same milliseconds for aware datetimes in 5 fixed offsets, 2 pytz zones and 2 zoneinfo '
-            'zones on both sides of DST transitions, judged against exact integer arithmetic.',
+            'additionally cross-checked against an independent encoder.  DateTime: every millisecond 0..999 x sub-millisecond part '
+            '{0,1,499,500,501,999} us at 12 epochs between year 1 and 9999 (naive, before and after 1970), and boundary milliseconds '
+            '(all 1000 in the thorough tier) x the same sub-millisecond parts for aware datetimes in 5 fixed offsets, 2 pytz zones and '
+            '2 zoneinfo zones at 13 local moments (both sides of DST transitions, both sides of 1970 incl. moments that change side '
+            'through the offset).  Whole-millisecond values are judged against exact integer arithmetic; values with a sub-millisecond '
+            'part against the integer the core encoder stores for the same datetime; every value is also converted after validate().',
     'note': 'Values a column\'s validate() rejects or the core encoder rejects are not "valid values" and are counted, not judged. '
             'The textual literal form of the value (Encoder) is C29\'s subject; here the typed encoding is compared.',
     'design_ref': 'C36',
@@ -42,6 +48,21 @@ D = decimal.Decimal
 DT0 = datetime.datetime(1970, 1, 1)
 DT1 = datetime.datetime(2024, 2, 29, 12, 30, 1)
 DT2 = datetime.datetime(1900, 1, 1, 0, 0, 1)
+# microseconds inside the millisecond: none, the smallest, around the half, the largest
+SUBMS = [0, 1, 499, 500, 501, 999]
+# below 2**43 ms from the epoch (about 1691..2248) a double holds the core encoder's `seconds * 1e3 + microsecond / 1e3`
+# closely enough that its int() is the exact truncation; beyond, the core result itself is float-rounded
+CORE_EXACT_BELOW = 1 << 43
+_EPOCH_N = datetime.datetime(1970, 1, 1)
+_EPOCH_A = datetime.datetime(1970, 1, 1, tzinfo=datetime.timezone.utc)
+_US = datetime.timedelta(microseconds=1)
+
+
+def micros_of(v):
+    """Exact microsecond instant of a datetime (naive = UTC), integer arithmetic of the stdlib only."""
+    if v.tzinfo is not None and v.utcoffset() is not None:
+        return (v - _EPOCH_A) // _US
+    return (v - _EPOCH_N) // _US
 
 
 def scalar_values():
@@ -271,18 +292,24 @@ def tz_cases():
 
 
 # local wall-clock moments for aware datetimes: winter, summer, and around both DST changes
+# and around 1970: local moments that are before / after the epoch only after the offset is applied
 AWARE_MOMENTS = [(2024, 1, 15, 12, 0, 0), (2024, 7, 1, 12, 0, 0), (2024, 3, 10, 1, 59, 59), (2024, 3, 10, 3, 0, 0),
                  (2024, 3, 31, 3, 0, 0), (2024, 11, 3, 1, 30, 0), (2024, 10, 27, 2, 30, 0), (1969, 12, 31, 23, 59, 59),
+                 (1969, 12, 31, 18, 0, 0), (1970, 1, 1, 3, 0, 0),
                  (1900, 1, 1, 0, 0, 0), (1, 1, 2, 0, 0, 0), (9999, 12, 30, 0, 0, 0)]
 
 
 def judge_dt(part, col, v, kind, label):
     from vt.spec import minicql
+    from cassandra.cqltypes import DateType
     try:
-        want = minicql.millis_of(v)
+        floor_ms = minicql.millis_of(v)
+        micros = micros_of(v)
     except OverflowError:
         part.count('instant_out_of_range')
         return
+    if micros // 1000 != floor_ms:
+        raise HarnessError('two exact computations of the instant of %r disagree: %d us vs %d ms' % (v, micros, floor_ms))
     part.count('evaluations')
     case = {'kind': kind, 'label': label, 'value': repr(v), 'iso': v.isoformat(), 'fold': getattr(v, 'fold', 0)}
     try:
@@ -290,18 +317,51 @@ def judge_dt(part, col, v, kind, label):
     except Exception as e:
         part.violation('C36/DateTime/%s/raises/%s' % (kind, type(e).__name__), 'DateTime.to_database(%r) raised %r' % (v, e), case)
         return
-    if got != want or isinstance(got, bool) or not isinstance(got, int):
-        diff = got - want if isinstance(got, (int, float)) else None
-        size = '1ms' if diff is not None and abs(diff) <= 1 else 'offset'
-        part.violation('C36/DateTime/%s/instant-off-by-%s' % (kind, size),
-                       'DateTime.to_database(%s) [%s %s] = %r, exact millisecond instant is %d (difference %r ms)' % (
-                           v.isoformat(), kind, label, got, want, diff), case)
-        part.outcome(('DateTime', kind, 'off-by-' + size))
+    is_int = isinstance(got, int) and not isinstance(got, bool)
+    if micros % 1000 == 0:
+        # a whole millisecond: the statement names the value, the exact millisecond instant
+        want = floor_ms
+        if got != want or not is_int:
+            diff = got - want if isinstance(got, (int, float)) else None
+            size = '1ms' if diff is not None and abs(diff) <= 1 else 'offset'
+            part.violation('C36/DateTime/%s/instant-off-by-%s' % (kind, size),
+                           'DateTime.to_database(%s) [%s %s] = %r, exact millisecond instant is %d (difference %r ms)' % (
+                               v.isoformat(), kind, label, got, want, diff), case)
+            part.outcome(('DateTime', kind, 'off-by-' + size))
+        else:
+            part.outcome(('DateTime', kind, 'exact'))
+            if want % 1000:
+                part.mark_nontrivial('dt|%s|%s|%d' % (kind, label, want))
     else:
-        part.outcome(('DateTime', kind, 'exact'))
-        if want % 1000:
-            part.mark_nontrivial('dt|%s|%s|%d' % (kind, label, want))
-    part.sample({'column': 'DateTime', 'kind': kind, 'value': v.isoformat(), 'to_database': got, 'exact_ms': want}, limit=1)
+        # a sub-millisecond part: the stored integer must be the one the core encoder stores for this datetime
+        part.count('submilli_evaluations')
+        (core,) = struct.unpack('>q', DateType.serialize(v, PV))
+        trunc = micros // 1000 if micros >= 0 else -(-micros // 1000)      # what the core formula int(s * 1e3 + us / 1e3) denotes
+        if core != trunc:
+            part.count('submilli_core_encoder_float_rounded')
+        ok = is_int and (got == core or (got == trunc and abs(trunc) >= CORE_EXACT_BELOW))
+        want = core
+        if not ok:
+            diff = got - core if isinstance(got, (int, float)) else None
+            part.violation('C36/DateTime/%s/sub-millisecond-differs-from-core/%s' % (kind, 'before-1970' if micros < 0 else 'after-1970'),
+                           'DateTime.to_database(%s) [%s %s] = %r, the core driver encodes this datetime as %d ms (exact instant %d us; '
+                           'difference %r ms)' % (v.isoformat(), kind, label, got, core, micros, diff), case)
+            part.outcome(('DateTime', kind, 'sub-ms-differs-from-core'))
+        else:
+            part.outcome(('DateTime', kind, 'sub-ms-as-core' if got == core else 'sub-ms-truncated-where-core-is-float-rounded'))
+            if micros < 0:
+                part.mark_nontrivial('dtsub|%s|%s|%d' % (kind, label, micros))
+    # save() validates first: the validated value must be stored as the same integer
+    try:
+        got2 = col.to_database(col.validate(v))
+    except Exception as e:
+        part.violation('C36/DateTime/%s/raises-after-validate/%s' % (kind, type(e).__name__),
+                       'DateTime.to_database(validate(%r)) raised %r' % (v, e), case)
+        return
+    if got2 != got:
+        part.violation('C36/DateTime/%s/validate-changes-value' % kind,
+                       'DateTime column: %s is stored as %r directly but as %r after validate()' % (v.isoformat(), got, got2), case)
+    part.sample({'column': 'DateTime', 'kind': kind, 'value': v.isoformat(), 'to_database': got, 'expected_ms': want}, limit=1)
 
 
 def run_datetime(args):
@@ -319,9 +379,11 @@ def run_datetime(args):
         for (h, mi, s) in ((0, 0, 0), (23, 59, 59)):
             base = datetime.datetime(y, mo, d, h, mi, s)
             for ms in ms_list:
+                for sub in SUBMS:
+                    v = base.replace(microsecond=ms * 1000 + sub)
+                    judge_dt(part, col, v, 'naive', '%04d' % y)
+                # the core encoder on the whole-millisecond value, for the record (its exactness is C01/C02's subject)
                 v = base.replace(microsecond=ms * 1000)
-                judge_dt(part, col, v, 'naive', '%04d' % y)
-                # the core encoder on the same value, for the record (its exactness is C01/C02's subject)
                 if DateType.serialize(v, PV) != struct.pack('>q', minicql.millis_of(v)):
                     part.count('core_encoder_inexact')
         # a date object is midnight UTC of that day
@@ -337,15 +399,16 @@ def run_datetime(args):
         for mom in AWARE_MOMENTS:
             base = datetime.datetime(*mom)
             for ms in ms_list:
-                try:
-                    v = mk(base.replace(microsecond=ms * 1000))
-                    v.utcoffset()
-                except (OverflowError, ValueError):
-                    part.count('instant_out_of_range')
-                    continue
-                except Exception as e:          # pytz NonExistentTimeError / AmbiguousTimeError cannot occur with is_dst given
-                    raise HarnessError('cannot build aware datetime %r %r: %r' % (label, mom, e))
-                judge_dt(part, col, v, kind, label)
+                for sub in SUBMS:
+                    try:
+                        v = mk(base.replace(microsecond=ms * 1000 + sub))
+                        v.utcoffset()
+                    except (OverflowError, ValueError):
+                        part.count('instant_out_of_range')
+                        continue
+                    except Exception as e:          # pytz NonExistentTimeError / AmbiguousTimeError cannot occur with is_dst given
+                        raise HarnessError('cannot build aware datetime %r %r: %r' % (label, mom, e))
+                    judge_dt(part, col, v, kind, label)
     return part
 
 
@@ -366,12 +429,19 @@ def run(ctx):
     for part in ctx.pmap(_job, [(j, ms_all, ms_aware) for j in jobs]):
         ctx.merge(part)
     ctx.cov['rule'] = ('column specs: %s; each with the listed boundary values of its natural python types; DateTime naive: %d epochs x 2 times of '
-                       'day x ms 0..999; DateTime aware: %d tz cases x %d local moments x %d ms values; an evaluation = one value accepted by both '
+                       'day x ms 0..999 x %d sub-millisecond parts %r us; DateTime aware: %d tz cases x %d local moments x %d ms values x the same '
+                       'sub-millisecond parts; an evaluation = one value accepted by both '
                        'validate() and the core encoder; non-trivial = to_database() returned a converted object (not the input itself), or an exact '
-                       'DateTime instant with a non-zero millisecond part' % (', '.join(names), len(EPOCHS), len(tz_cases()), len(AWARE_MOMENTS), len(ms_aware)))
+                       'DateTime instant with a non-zero millisecond part, or a DateTime with a sub-millisecond part before 1970 (where flooring and '
+                       'truncating toward zero differ) stored as the core encoder stores it'
+                       % (', '.join(names), len(EPOCHS), len(SUBMS), SUBMS, len(tz_cases()), len(AWARE_MOMENTS), len(ms_aware)))
     ctx.cov['exhaustive'] = True
     ctx.assume('a naive datetime means UTC (cqlengine documentation and the core encoder agree); a datetime.date in a DateTime column means midnight UTC')
-    ctx.assume('only whole-millisecond datetimes are generated: how sub-millisecond microseconds are rounded is not fixed by the statement')
+    ctx.assume('a datetime with a sub-millisecond part has no exact millisecond instant: it is judged only against the integer the core encoder '
+               '(DateType.serialize) stores for it.  Within 2**43 ms of 1970 (about 1691..2248) that integer must be matched exactly; further out '
+               'the core encoder\'s double arithmetic rounds the sub-millisecond part away (C01/C02\'s subject, counted as '
+               'submilli_core_encoder_float_rounded) and either the core result or the exact truncation toward zero, which the core formula denotes, is accepted')
+    ctx.assume('DateTime.truncate_microseconds keeps its default (False)')
     ctx.assume('values outside the natural python type of a column (float or str in a Decimal column, str in an Integer column, int day counts '
                'in a Date column, whose meaning differs between cqlengine (days since 1970) and the core encoder (raw unsigned value)) are left out')
     ctx.assume('DateTime elements inside collections/tuples/UDTs use whole-second values so that the DateTime conversion is judged once, by the DateTime cases')
